@@ -205,6 +205,15 @@ DeleteOk(b, o) ==
             (IF d.kind = "hotfix" THEN Len(r.ver) = 4 /\ SubSeq(r.ver, 1, 3) = d.ver
              ELSE r.ver = d.ver)
      /\ d.kind = "development" => ~ \E s \in Stabs(b) : StabToDev(s, d)
+(* a delete_branch job that refuses a live destination has one of the stated reasons: queued pull    *)
+(* requests on that version, a live stabilization branch of that development branch, an archive tag  *)
+DeleteRefusalJustified(b, o) ==
+  \A d \in Dests(b) : (o.job.status = "JobFailure" /\ o.job.arg = d.n) =>
+     \/ \E r \in Refs(b) : r.kind = "qw" /\
+            (IF d.kind = "hotfix" THEN Len(r.ver) = 4 /\ SubSeq(r.ver, 1, 3) = d.ver
+             ELSE r.ver = d.ver)
+     \/ d.kind = "development" /\ \E s \in Stabs(b) : StabToDev(s, d)
+     \/ d.kind # "hotfix" /\ \E t \in Tags(b) : t.ver = d.ver
 OnlyQueuesChanged(b, o) ==
   /\ \A r \in Refs(b) : r.kind \notin QueueKinds => (HasRef(o, r.n) /\ RefOf(o, r.n).c = r.c)
   /\ \A r \in NewRefs(b, o) : r.kind \in QueueKinds
